@@ -121,7 +121,31 @@ def noul(e):
         return "[" + ", ".join(noul(x) for x in e[1]) + "]"
     if k == "import":
         return f"(import {noul_atom(e[1])})"
+    # ---- outside the modelled vocabulary (frozen vs unfrozen on the implementation only)
+    if k == "dict":
+        return "{" + ", ".join(f"{noul_atom(a)}: {noul(b)}" for a, b in e[1]) + "}"
+    if k == "index":
+        return f"{noul_atom(e[1])}[{noul(e[2])}]"
+    if k in ("and", "or"):
+        return f"({noul_atom(e[1])} {k} {noul_atom(e[2])})"
+    if k == "return":
+        return f"(return {noul_atom(e[1])})"
+    if k in ("break", "continue"):
+        return k
+    if k == "opasg":
+        return f"{e[1]} {e[2]}= {noul(e[3])}"
     raise ValueError(k)
+
+
+EXT_NODES = ("dict", "index", "and", "or", "return", "break", "continue", "opasg")
+
+
+def has_ext(t):
+    if isinstance(t, tuple):
+        if t and isinstance(t[0], str) and t[0] in EXT_NODES:
+            return True
+        return any(has_ext(x) for x in t)
+    return False
 
 
 def noul_blk(e):
@@ -132,7 +156,7 @@ def noul_blk(e):
 
 def noul_atom(e):
     s = noul(e)
-    if e[0] in ("int", "str", "null", "var", "und", "list", "call") or (s.startswith("(") and e[0] != "call"):
+    if e[0] in ("int", "str", "null", "var", "und", "list", "call", "dict") or (s.startswith("(") and e[0] not in ("call", "index")):
         return s
     return "(" + s + ")"
 
@@ -217,6 +241,19 @@ def ddecl(e):
         for o, d in e[2]:
             r |= ddecl(o) | ddecl(d)
         return r
+    if k == "dict":
+        r = set()
+        for a, b in e[1]:
+            r |= ddecl(a) | ddecl(b)
+        return r
+    if k in ("index", "and", "or"):
+        return ddecl(e[1]) | ddecl(e[2])
+    if k == "return":
+        return ddecl(e[1])
+    if k in ("break", "continue"):
+        return set()
+    if k == "opasg":
+        return ddecl(e[3])
     raise ValueError(k)
 
 
@@ -345,6 +382,32 @@ def walk(e, B, DD, info, self_name=None):
             if a[0] != "und":
                 B, DD = walk(a, B, DD, info)
         return B, DD
+    if k == "dict":
+        for a, b in e[1]:
+            B, DD = walk(a, B, DD, info)
+            B, DD = walk(b, B, DD, info)
+        return B, DD
+    if k == "index":
+        if e[1][0] != "und":
+            B, DD = walk(e[1], B, DD, info)
+        if e[2][0] != "und":
+            B, DD = walk(e[2], B, DD, info)
+        return B, DD
+    if k in ("and", "or"):
+        B1, DD1 = walk(e[1], B, DD, info)
+        B2, _ = walk(e[2], B1, DD1, info)
+        return B2, DD1
+    if k == "return":
+        return walk(e[1], B, DD, info)
+    if k in ("break", "continue"):
+        return B, DD
+    if k == "opasg":
+        if e[1] not in B:
+            info.fails.append(("name", f"assign outer {e[1]}"))
+        elif e[1] not in DD:
+            info.k2.add(e[1])
+        B, DD = walk(("var", e[2]), B, DD, info)
+        return walk(e[3], B, DD, info)
     raise ValueError(k)
 
 
@@ -361,10 +424,11 @@ ARGS2 = [(0, 1), (1, 0), (2, 3), (3, 2), (5, 5), (4, 1), (1, 6)]
 
 
 class Gen:
-    def __init__(self, rng, outer):
+    def __init__(self, rng, outer, ext=False):
         self.r = rng
         self.outer = outer            # dict name -> kind ("int" | "list" | "op" | "str")
         self.fresh = 0
+        self.ext = ext                # also use constructs outside the modelled vocabulary
 
     def pick(self, xs):
         return xs[self.r.randrange(len(xs))]
@@ -403,6 +467,15 @@ class Gen:
         """an expression that usually evaluates to an integer"""
         if d <= 0:
             return self.int_leaf(scope)
+        if self.ext and self.r.random() < 0.12:
+            q = self.r.random()
+            if q < 0.45:
+                k1, k2 = self.r.randrange(0, 3), self.r.randrange(3, 6)
+                dct = ("dict", ((("int", k1), self.gint(scope, d - 2)), (("int", k2), self.gint(scope, d - 2))))
+                return ("index", dct, ("int", self.pick([k1, k2]))) if self.r.random() < 0.7 else ("call", ("var", "len"), (dct,))
+            if q < 0.75:
+                return ("or", ("and", self.gint(scope, d - 1), self.gint(scope, d - 1)), self.gint(scope, d - 1))
+            return ("and", self.gcond(scope, d - 1), self.gint(scope, d - 1))
         p = self.r.random()
         if p < 0.22:
             return self.int_leaf(scope)
@@ -497,6 +570,15 @@ class Gen:
     def gstmt(self, sc, d):
         p = self.r.random()
         declared = sc.setdefault("#declared", set())
+        if self.ext and self.r.random() < 0.2:
+            q = self.r.random()
+            ints = [n for n in declared if sc.get(n) == "int"]
+            if q < 0.4 and ints:
+                return ("opasg", self.pick(ints), self.pick(["+", "-", "*"]), self.gint(sc, d - 1))
+            if q < 0.6:
+                return ("if", self.gcond(sc, d - 1), ("return", self.gint(sc, d - 1)), ("null",))
+            if sc.get("#inloop"):
+                return ("if", self.gcond(sc, d - 1), (self.pick(["break", "continue"]),), ("null",))
         if p < 0.34:
             x = self.local_name(sc, "int")
             if x in declared or x in sc.get("#params", ()):
@@ -559,7 +641,7 @@ class Gen:
         if p < 0.90:
             x = self.pick(["i", "j", "x"]) if self.r.random() < 0.85 else self.pick(list(self.outer) or ["i"])
             inner = {n: k for n, k in sc.items() if not n.startswith("#")}
-            inner.update({x: "int", "#declared": set(), "#params": (x,)})
+            inner.update({x: "int", "#declared": set(), "#params": (x,), "#inloop": True})
             cls = []
             if self.r.random() < 0.35:
                 z = self.pick(["z", "t", "a"])
@@ -645,7 +727,7 @@ def gen_case(rng, idx):
         decls.append(("decl", "h", ("lam", ("p", "q"), ("chain", ("var", "q"), ((("var", "-"), ("var", "p")),)))))
         if rng.random() < 0.5:
             precs["h"] = rng.choice([2, 4, 6])
-    g = Gen(rng, outer)
+    g = Gen(rng, outer, ext=rng.random() < 0.12)
     lam = g.glambda()
     kind = "plain"
     p = rng.random()
@@ -737,6 +819,11 @@ def gen_case(rng, idx):
 # ----------------------------------------------------------------------------- running a case
 def stmts_of(case):
     """parallel statement lists: (noulith source, model s-expression, tag)"""
+    return _stmts(case, None if has_ext(case["lam"]) else sx)
+
+
+def _stmts(case, sx):
+    sx = sx or (lambda e: "(null)")
     out = []
     for d in case["outer"]:
         out.append((noul(d), sx(d), "outer"))
@@ -914,8 +1001,12 @@ def run_cases(ctx, cases, runner, stats):
         hc.append({"id": i, "fuel": 60000, "fresh": c["mut"][0] in ("swap", "prec") and c["mut"][1] in BUILTINS,
                    "stmts": [s for s, _, _ in st]})
     res = common.run_harness(common.harness_bin("c17"), hc, timeout=30.0)
-    mlines = ["( " + " ".join(m for _, m, _ in stmts_of(c)) + " )" for c in cases]
-    mres = common.run_model(runner, mlines) if runner else [None] * len(cases)
+    with_model = [i for i, c in enumerate(cases) if not has_ext(c["lam"])]
+    mlines = ["( " + " ".join(m for _, m, _ in stmts_of(cases[i])) + " )" for i in with_model]
+    mout = common.run_model(runner, mlines) if runner else [None] * len(with_model)
+    mres = [None] * len(cases)
+    for i, m in zip(with_model, mout):
+        mres[i] = m
     allp = []
     for c, r, m in zip(cases, res, mres):
         ps = check_case(ctx, c, r, m, stats)
@@ -1016,6 +1107,7 @@ def run(ctx):
                     for c in cases[::max(1, len(cases) // 10)]][:10],
         "lambdas": len(cases), "corpus": len(cases) - n, "case_kinds": kinds, "syntax_nodes": feat,
         "mutation_kinds": {k: sum(1 for c in cases if c["mut"][0] == k) for k in ("data", "swap", "prec")},
+        "lambdas_outside_model_vocabulary": sum(1 for c in cases if has_ext(c["lam"])),
         **stats,
     })
     ctx.assumptions += ["programs are drawn from the modelled vocabulary (Lang/FreezeLang.v); a statement on which the model leaves the vocabulary "
